@@ -144,6 +144,10 @@ def labels_for(spec, rm):
         f.add("in_node_wiring")
         if any(len(v) > 1 for v in rm.wiring.values()):
             f.add("input_multiply_driven_in_node")
+    if any(e.get("et") for e in spec["edges"]):
+        f.add("edge_template")
+    if any(e.get("xs") for e in spec["edges"]):
+        f.add("edge_operator_second_input")
     unconnected = [k for k, kd in rm.kind.items() if kd == "input" and k not in rm.in_edges and k not in rm.wiring]
     if unconnected:
         f.add("unconnected_input_default")
@@ -164,7 +168,8 @@ class VfArm(Arm):
     min_per_shard = 20
     vectorize = False
     required_labels = ("multi_input_op", "parallel_edges", "two_vars_one_node_same_target", "collision_name",
-                       "unconnected_input_default", "depth>=1", "in_node_wiring", "fan_in", "self_connection")
+                       "unconnected_input_default", "depth>=1", "in_node_wiring", "fan_in", "self_connection", "edge_template",
+                       "edge_operator_second_input")
 
     def strategy(self, ctx):
         vec = self.vectorize
@@ -172,6 +177,10 @@ class VfArm(Arm):
         @st.composite
         def case(draw):
             spec = draw(gen.model_spec({"overrides": True}))
+            if draw(st.integers(0, 5)) == 0:
+                # edges through (shared) EdgeTemplates: an algebraic edge operator with per-edge values, every third one
+                # with a second input that is fed from a named variable
+                spec = draw(gen.with_edge_templates(spec, same_keys=True if vec else None))
             if vec:
                 spec = gen.uniquify_init(spec)
             rm = RefModel(spec)
